@@ -234,7 +234,11 @@ pub fn run_scenario(sc: &Scenario, seed0: u64, v: &Verdicts, st: &Mutex<Stats>) 
         let mut s = st.lock().unwrap();
         s.runs += 1;
         s.quiet_points += quiet_points;
-        s.distinct.insert(format!("{}|{}|{:x}", sc.class, win_set.iter().cloned().collect::<Vec<_>>().join("+"), c.decisions_hash()));
+        // non-trivial = an election with at least two participants was decided (a victory through acknowledgements,
+        // a timeout or the not-registered branch), not only the lone-node shortcut
+        if win_set.iter().any(|w| w != "single_node") {
+            s.distinct.insert(format!("{}|{}|{:x}", sc.class, win_set.iter().cloned().collect::<Vec<_>>().join("+"), c.decisions_hash()));
+        }
         for w in &win_set {
             s.win_branches.insert(w.clone());
         }
@@ -297,7 +301,7 @@ pub fn run(tier: &str) -> i32 {
     let s = st.into_inner().unwrap();
     ev.evaluations = s.runs;
     ev.distinct_nontrivial = s.distinct.len() as u64;
-    ev.rule = format!("{} simulated-cluster runs over 9 scenario classes (sequential joins, staggered and simultaneous start, primary killed, secondary killed+restarted, primary killed+restarted, forced election, two forced elections, primary killed + forced election) with 2-3 nodes of distinct ages; real supervisor / replication loop / election code, emulated FIFO links, seeded token scheduler in which an election-wait tick or a start-up timer is taken only when nothing else is enabled (plus at most 4 early ticks per wait, timeout = 15 ticks); judged at every quiescent point; step budget {} (largest quiescent run: {} steps); distinct_nontrivial = distinct (scenario class, victory branches taken, scheduler decision hash)", n_runs, 6000, s.max_steps);
+    ev.rule = format!("{} simulated-cluster runs over 9 scenario classes (sequential joins, staggered and simultaneous start, primary killed, secondary killed+restarted, primary killed+restarted, forced election, two forced elections, primary killed + forced election) with 2-3 nodes of distinct ages; real supervisor / replication loop / election code, emulated FIFO links, seeded token scheduler in which an election-wait tick or a start-up timer is taken only when nothing else is enabled (plus at most 4 early ticks per wait, timeout = 15 ticks); judged at every quiescent point; step budget {} (largest quiescent run: {} steps); distinct_nontrivial = distinct (scenario class, victory branches taken, scheduler decision hash) among the runs in which a contested election (>= 2 participants: victory by acknowledgements, timeout or not-registered branch) was decided", n_runs, 6000, s.max_steps);
     ev.samples = s.samples.clone();
     ev.set("quiescent_points_judged", json!(s.quiet_points));
     ev.set("scenario_classes", json!(s.classes.iter().cloned().collect::<Vec<_>>()));
@@ -317,7 +321,7 @@ pub fn run(tier: &str) -> i32 {
     ev.write();
     cleanup_scratch();
     let code = v.finish(tier);
-    if code == 0 && (s.distinct.len() < 300 || s.inconclusive > s.runs / 20) {
+    if code == 0 && (s.distinct.len() < 200 || s.inconclusive > s.runs / 20) {
         println!("INCONCLUSIVE property=C07 reason=coverage floor not met ({} distinct runs, {} watchdog cases)", s.distinct.len(), s.inconclusive);
         return 2;
     }
